@@ -10,6 +10,7 @@ ALLP = ["C%02d" % i for i in range(1, 21)]
 
 def one(name):
     scratch = selftest.make_copy()
+    core.clear_ctx_cache()      # scratch copies are one-shot: never reuse a context across them
     try:
         r = subprocess.run(["patch", "-p1", "-s", "-i", os.path.join(V, "benign", name)], cwd=scratch, capture_output=True, text=True)
         if r.returncode != 0:
